@@ -397,3 +397,125 @@ def rule_rvv_vlen(ctx, R):
                             found='also reachable with ' + ', '.join(bad[:3]) if bad else 'guarded')
     if n < 4:
         raise AnalysisBroken('RVV-VLEN: only %d calls of RVV AES kernels found in aes_hash.cpp (expected 4: the software instance of each of the four functions)' % n)
+
+
+# ---------------------------------------------------------------------------------------------------------------------------
+# [RVV-JIT-VLEN] the vector JIT runtime is entered only with a vector length its vsetivli instructions can honour
+def rule_rvv_jit_vlen(ctx, R):
+    import rtasm
+    R.rule('RVV-JIT-VLEN', 'JitCompilerRV64 hands out the vector program entry / the vector dataset-initialisation entry only when the CPU reports the V extension with a vector length of at least what the '
+           'hand-written vector runtime asks for in that part (max over its vsetivli instructions of AVL x SEW / LMUL: with a shorter vector the hardware clamps vl and the upper lanes - dataset items, '
+           'register halves - are never computed); the constructor condition and the two getters are evaluated for every vector length', min_instances=20)
+    P = rtasm.Prog(ctx.obj('rvv'), 'rv')
+    R.saw(unit='src/jit_compiler_rv64_vector_static.S', config='K3')
+
+    def need(lo, hi, what):
+        n, where = 0, None
+        for a in P.order:
+            if not (lo <= a < hi):
+                continue
+            i = P.ins[a]
+            if i.mnem == 'vsetivli':
+                avl = int(i.ops[1], 0)
+                sew = int(i.ops[2][1:])
+                lm = i.ops[3]
+                lmul = {'m1': 1, 'm2': 2, 'm4': 4, 'm8': 8, 'mf2': 0.5, 'mf4': 0.25, 'mf8': 0.125}.get(lm)
+                if lmul is None:
+                    raise AnalysisBroken('RVV-JIT-VLEN: vsetivli with %s at %s' % (lm, P.name_at(a)))
+                v = int(avl * sew / lmul)
+                if v > n:
+                    n, where = v, '%s: %s %s' % (P.name_at(a), i.mnem, ', '.join(i.ops[:4]))
+            elif i.mnem in ('vsetvli', 'vsetvl'):
+                raise AnalysisBroken('RVV-JIT-VLEN: %s with a run-time AVL at %s' % (i.mnem, P.name_at(a)))
+        if not n:
+            raise AnalysisBroken('RVV-JIT-VLEN: no vsetivli in the %s part of the runtime' % what)
+        return n, where
+    need_ds = need(P.sym('randomx_riscv64_vector_sshash_begin'), P.sym('randomx_riscv64_vector_sshash_end'), 'dataset initialisation')
+    need_pg = need(P.sym('randomx_riscv64_vector_program_begin'), P.sym('randomx_riscv64_vector_program_end'), 'program')
+    F = astq.Facts(ctx, 'K3')
+    R.saw(config='K3', unit='src/jit_compiler_rv64.cpp')
+
+    def ev(nod, rvv, ln, env):
+        nod = strip_all(nod)
+        while nod['k'] == 'Cast' or nod['k'] == 'Paren':
+            nod = strip_all(nod['e'])
+        v_ = val(nod)
+        if v_ is not None:
+            return v_
+        if nod['k'] == 'Mem' and nod.get('m') in env:
+            return env[nod['m']]
+        if nod['k'] == 'Ref' and nod.get('n') in env:
+            return env[nod['n']]
+        if nod['k'] == 'Bin':
+            a_, b_ = ev(nod['l'], rvv, ln, env), ev(nod['r'], rvv, ln, env)
+            op = nod['op']
+            if op == '&&':
+                return 0 if (a_ == 0 or b_ == 0) else (None if None in (a_, b_) else 1)
+            if op == '||':
+                return 1 if ((a_ not in (0, None)) or (b_ not in (0, None))) else (None if None in (a_, b_) else 0)
+            if None in (a_, b_):
+                return None
+            f_ = {'>=': lambda: a_ >= b_, '>': lambda: a_ > b_, '<': lambda: a_ < b_, '<=': lambda: a_ <= b_, '==': lambda: a_ == b_, '!=': lambda: a_ != b_}.get(op)
+            return None if f_ is None else int(f_())
+        if nod['k'] == 'Un' and nod.get('op') == '!':
+            a_ = ev(nod['e'], rvv, ln, env)
+            return None if a_ is None else int(not a_)
+        if nod['k'] == 'Call':
+            nm = nod.get('name')
+            if nm == 'hasRVV':
+                return rvv
+            if nm == 'getRVV_Length':
+                return ln if rvv else 0
+            if nm == 'allocMemoryPages':
+                return 1
+        return None
+    ctors = [f for f in F.in_file('jit_compiler_rv64.cpp') if f['name'] == 'JitCompilerRV64' and f.get('body')]
+    if len(ctors) != 1:
+        raise AnalysisBroken('RVV-JIT-VLEN: constructor of JitCompilerRV64 not found')
+    ctor = ctors[0]
+    gate = [x for x in walk(ctor['body']) if x['k'] == 'If' and 'RVV' in show(x['c'])]
+    if len(gate) != 1:
+        raise AnalysisBroken('RVV-JIT-VLEN: expected one condition on the V extension in the constructor, found %d' % len(gate))
+    gate = gate[0]
+    assigns = {}
+    for x in walk(gate['t']):
+        if x['k'] == 'Assign':
+            l = strip_all(x['l'])
+            if l['k'] == 'Mem' and l.get('m') in ('vectorCode', 'vectorRegisterLength'):
+                assigns.setdefault(l['m'], x['r'])
+    if 'vectorCode' not in assigns:
+        raise AnalysisBroken('RVV-JIT-VLEN: the constructor does not set vectorCode under its V-extension condition')
+    getters = {}
+    for nm, tag in (('getProgramFunc', 'program'), ('getDatasetInitFunc', 'dataset initialisation')):
+        try:
+            g = [F.func('randomx::JitCompilerRV64::' + nm)]
+        except AnalysisBroken:
+            raise AnalysisBroken('RVV-JIT-VLEN: %s not found' % nm)
+        rets = [x for x in walk(g[0]['body']) if x['k'] == 'Return']
+        conds = [x for x in walk(g[0]['body']) if x['k'] == 'Cond']
+        if len(rets) != 1 or len(conds) != 1:
+            raise AnalysisBroken('RVV-JIT-VLEN: %s is not a single conditional return' % nm)
+        getters[nm] = (g[0], conds[0], tag)
+        R.saw(fn=g[0]['q'])
+    for rvv in (0, 1):
+        for ln in (0, 64, 128, 256, 512, 1024, 65536):
+            c = ev(gate['c'], rvv, ln, {})
+            if c is None:
+                raise AnalysisBroken('RVV-JIT-VLEN: constructor condition %s not decided for hasRVV=%d VLEN=%d' % (show(gate['c'])[:60], rvv, ln))
+            env = {'vectorCode': 0, 'vectorRegisterLength': 0}
+            if c:
+                env['vectorCode'] = 1
+                if 'vectorRegisterLength' in assigns:
+                    env['vectorRegisterLength'] = ev(assigns['vectorRegisterLength'], rvv, ln, {})
+            for nm, (g, cnd, tag) in getters.items():
+                cv = ev(cnd['c'], rvv, ln, env)
+                if cv is None:
+                    raise AnalysisBroken('RVV-JIT-VLEN: %s: condition %s not decided' % (nm, show(cnd['c'])[:60]))
+                chosen = cnd['t'] if cv else cnd['f']
+                vec = 'Vector' in show(chosen)
+                nd, why = need_ds if nm == 'getDatasetInitFunc' else need_pg
+                inst = '%s hasRVV=%d VLEN=%d' % (nm, rvv, ln)
+                if vec and not (rvv and ln >= nd):
+                    R.violation(inst, '%s:%d' % (g['file'], g['line']), expected='the vector %s entry only with VLEN >= %d (%s)' % (tag, nd, why), found='returned with VLEN %d' % ln)
+                else:
+                    R.ok(inst, '%s:%d' % (g['file'], g['line']))
